@@ -226,6 +226,18 @@ impl ConsumeUnverifiedBlockProcessor {
         let block_hash = block.hash();
         let parent_hash = block.parent_hash();
 
+        // a duplicate of a block which already failed verification (and was deleted) must not be
+        // recorded again: it would get a BlockExt without block data and look stored
+        if self
+            .shared
+            .get_block_status(&block_hash)
+            .eq(&BlockStatus::BLOCK_INVALID)
+        {
+            return Err(InternalErrorKind::Other
+                .other(format!("block: {} previously verified failed", block_hash))
+                .into());
+        }
+
         {
             let parent_status = self.shared.get_block_status(&parent_hash);
             if parent_status.eq(&BlockStatus::BLOCK_INVALID) {
